@@ -182,6 +182,34 @@ pub fn run(ctx: &Ctx) -> Report {
             cases.push(mk_case(SocketAddr::new(*ip, 0x2112), t));
         }
     }
+    // lane pairs with all 65536 value pairs: IPv4 all 6 pairs; IPv6 adjacent lanes and lanes 8 apart
+    // (carries, sign extension and word-boundary slips need two lanes to show)
+    for i in 0..4usize {
+        for j in i + 1..4 {
+            for x in 0..=0xFFFFu32 {
+                let mut o = [10u8, 1, 2, 3];
+                o[i] = (x >> 8) as u8;
+                o[j] = x as u8;
+                cases.push(mk_case(SocketAddr::new(IpAddr::V4(Ipv4Addr::from(o)), 0x8001), seed_t));
+            }
+        }
+    }
+    let mut pairs6: Vec<(usize, usize)> = (0..15).map(|i| (i, i + 1)).collect();
+    pairs6.extend((0..8).map(|i| (i, i + 8)));
+    let stride = ctx.tier.pick(5u32, 1u32); // quick: every 5th second-lane value + the boundary set
+    for (i, j) in pairs6 {
+        for a in 0..=255u32 {
+            for b in 0..=255u32 {
+                if b % stride != 0 && ![0x01, 0x21, 0x42, 0x7F, 0x80, 0xA4, 0xFF].contains(&b) {
+                    continue;
+                }
+                let mut o = backgrounds6[4];
+                o[i] = a as u8;
+                o[j] = b as u8;
+                cases.push(mk_case(SocketAddr::new(IpAddr::V6(Ipv6Addr::from(o)), 0x7FFF), seed_t));
+            }
+        }
+    }
     let n_cases = cases.len() as u64;
     let mut acc = cases
         .into_par_iter()
@@ -195,7 +223,7 @@ pub fn run(ctx: &Ctx) -> Report {
         .reduce(Acc::default, |a, b| a.merge(b));
     acc.nontrivial = n_cases;
     let mut bounds = json!({"ports": 65536, "lane_walk_backgrounds": 5, "cases": n_cases});
-    let mut rule = "all 65536 ports x 4 addresses x 3 tids; every byte lane of IPv4/IPv6 address and of the transaction id takes all 256 values against 5 backgrounds (zeros, ones, equal to the XOR key, complement, seeded); boundary tids; IPv6: all 96 single-bit-different tids".to_string();
+    let mut rule = "all 65536 ports x 4 addresses x 3 tids; every byte lane of IPv4/IPv6 address and of the transaction id takes all 256 values against 5 backgrounds (zeros, ones, equal to the XOR key, complement, seeded); boundary tids; IPv4: all 6 lane pairs x all 65536 value pairs; IPv6: adjacent lanes and lanes 8 apart x 256 x (every 5th value + boundary set; all 256 in thorough); IPv6: all 96 single-bit-different tids".to_string();
     if ctx.tier == Tier::Thorough {
         // all 2^32 IPv4 addresses x 2 ports x 2 tids (fast path: address round trip + wire encoding)
         let fails = AtomicU64::new(0);
